@@ -6,14 +6,14 @@
  R3  freshly built and cached kernels carry the same metadata: both binary loaders assign k.metadata; the cached route reads it from the build file
  R4  metadata is produced for every non-implicit argument in declaration order from isPointerType() and dtype()
 """
-from vlib.facts import kids, strip, walk, is_call, call_args, call_object, callee, render, literal, noid
+from vlib.facts import decl_of, kids, strip, walk, is_call, call_args, call_object, callee, render, literal, noid
 from vlib.cfg import write_target
 from vlib.work import AnalysisBroken, gen_dir
 
 UNITS = ["src/occa/internal/lang/type/typedef.cpp", "src/occa/internal/lang/type/vartype.cpp", "src/occa/internal/lang/variable.cpp",
          "src/occa/internal/lang/type/struct.cpp", "src/occa/internal/lang/type/union.cpp", "src/occa/internal/core/kernel.cpp", "src/core/kernel.cpp", "src/occa/internal/lang/parser.cpp",
          "src/occa/internal/lang/kernelMetadata.cpp", "src/occa/internal/modes/serial/device.cpp", "src/occa/internal/modes/serial/kernel.cpp",
-         "src/occa/internal/modes/openmp/device.cpp"]
+         "src/occa/internal/modes/openmp/device.cpp", "src/dtype/dtype.cpp"]
 
 
 def run(ctx):
@@ -26,6 +26,7 @@ def run(ctx):
     R.rule("C10-R2", "setupRun check inventory and ordering", floor=6)
     R.rule("C10-R3", "fresh and cached binaries get their metadata assigned", floor=4)
     R.rule("C10-R4", "metadata built per non-implicit argument from pointer-ness and dtype", floor=3)
+    R.rule("C10-R6", "the flattened dtype the cast test compares is built by structural recursion: every component contributes its whole flattening, once per tuple entry", floor=5)
     R.rule("C10-R5", "declared dtype derivation: wrappers delegate to vartype_t::dtype (qualifiers and array extents applied), never to the bare type", floor=5)
 
     # ---- R1 --------------------------------------------------------------------------
@@ -222,6 +223,51 @@ def run(ctx):
         f = prog.fn(q)
         ok = any(c["k"] == "CXXMemberCallExpr" and callee(c) == L + "variable_t::dtype" for c in f.walk())
         R.ob("C10-R5", ok, q, "field dtypes through variable_t::dtype()", "%s:%d" % (f.relfile, f.d["line"]), "nested fields use the same chain")
+
+    flat_dtypes(prog, R)
+
+
+def flat_dtypes(prog, R):
+    """R6: dtype_t::canBeCastedTo compares flatDtype vectors; they are filled only by the addFlatDtypes family"""
+    fam = [f for f in prog.funcs.values() if f.q.endswith("::addFlatDtypes") and f.q.startswith("occa::dtype") and f.d.get("tmpl") != "inst"]
+    if len(fam) < 4:
+        raise AnalysisBroken("addFlatDtypes family: only %d members found" % len(fam))
+    for f in fam:
+        vec = f.d["params"][0]["d"]
+        muts = []
+        for c in f.walk():
+            if not is_call(c):
+                continue
+            cq = callee(c) or ""
+            obj = call_object(c)
+            if obj is not None and decl_of(obj) == vec and "std::vector" in cq:
+                muts.append(c)
+        rec = [c for c in f.walk() if is_call(c) and (callee(c) or "").endswith("::addFlatDtypes") and call_args(c) and decl_of(call_args(c)[0]) == vec]
+        leaf = f.q == "occa::dtype_t::addFlatDtypes"
+        bad = []
+        for m in muts:
+            short = callee(m).split("::")[-1]
+            if short == "size" or short == "empty":
+                continue
+            if leaf and short == "push_back" and "self" in noid(render(call_args(m)[0], False)):
+                continue
+            bad.append(m)
+        R.ob("C10-R6", not bad, f.q, "flatten:the vector is extended only by recursive flattening (leaf: push_back(&self))", f.site(bad[0]) if bad else "%s:%d" % (f.relfile, f.d["line"]),
+             "%d recursive call(s)" % len(rec) if not bad else
+             "the flat vector is edited directly (%s): a component whose own flattening has more than one entry (float2 a[3], float a[2][3]) gets the wrong flattened length, and setupRun accepts / rejects the wrong argument lists" % callee(bad[0]).split("::")[-1])
+        if not leaf:
+            loops = [n for n in f.walk() if n["k"] in ("ForStmt", "WhileStmt", "CXXForRangeStmt") and not n.get("mac")]
+            inloop = bool(rec) and all(any(any(x["i"] == c["i"] for x in walk(l)) for l in loops) for c in rec)
+            bound = ""
+            if loops and loops[0]["k"] == "ForStmt":
+                bound = noid(render(kids(loops[0])[2] if len(kids(loops[0])) > 2 else loops[0], False))
+            want = "size" if "Tuple" in f.q else "fieldCount"
+            okb = inloop and want in noid(render(loops[0], False))
+            R.ob("C10-R6", okb, f.q, "flatten:one recursive flattening per %s" % ("tuple entry" if "Tuple" in f.q else "field"), f.site(rec[0]) if rec else "%s:%d" % (f.relfile, f.d["line"]),
+                 "recursion inside the loop over %s" % want if okb else "the component is not flattened once per %s" % ("entry (size times)" if "Tuple" in f.q else "field"))
+    cc = prog.fn("occa::dtype_t::canBeCastedTo")
+    sf = [c for c in cc.calls() if (callee(c) or "").endswith("::setFlattenedDtype")]
+    R.ob("C10-R6", len(sf) == 2, cc.q, "flatten:both sides flattened before the comparison", cc.site(sf[0]) if sf else cc.relfile, "from.setFlattenedDtype(); to.setFlattenedDtype()")
 
 
 META = {
